@@ -28,6 +28,7 @@ class Fn:
     doc: str | None = None
     decorators: list = field(default_factory=list)
     tag: str | None = None  # unique token identifying this very definition (C17)
+    setter: bool = False  # property with a setter (an overloaded definition without implementation for the type checker)
 
 
 @dataclass
@@ -188,6 +189,8 @@ def render_cls(c: Cls, indent: str = "") -> str:
             body.append(render_cls(n, indent + "    ") + "\n")
     for m in c.methods:
         body.append(render_fn(m, indent + "    ") + "\n")
+        if m.role == "prop" and m.setter:
+            body.append(f"{indent}    @{m.name}.setter\n{indent}    def {m.name}(self, value: {m.ret or 'int'}) -> None:\n{indent}        ...\n\n")
     if not body and c.doc is None:
         body.append(f"{indent}    pass\n")
     return "".join(out) + "".join(body)
@@ -574,6 +577,8 @@ def _random_fn(rng, names, priv, role, public_classes, m, cfg) -> Fn:
     if role == "prop":
         params = []
     fn = Fn(name, params, ret, role=role)
+    if role == "prop" and rng.random() < 0.4:
+        fn.setter = True
     if cfg.docs:
         fn.doc = f"Doc of {name}."
     return fn
